@@ -5,16 +5,18 @@ from props import common
 ID = "C19"
 LEVEL = "proof"
 SIDECARS = ["contracts.tensor", "contracts.equation", "contracts.equation_c19", "contracts.defaults"]
-TARGETS = ["Equation.__get_tensor_ranks", "Equation.__build_einsum_ranks", "LoopOrder.__default_loop_order", "LoopOrder.add", "Mapping.__init__",
+TARGETS = ["Equation.__get_tensor_ranks", "Equation.__get_term_ranks", "Equation.__build_einsum_ranks", "LoopOrder.__default_loop_order", "LoopOrder.add", "Mapping.__init__",
            "Partitioning.__update_ranks"]
 EXPLANATION = (
     "Proved on the real functions: Equation.__get_tensor_ranks returns the ranks of an access in the order written "
-    "(position = document offset of the index term, defined by unfolding over the lark tree); LoopOrder.add uses the "
+    "(position = document offset of the index term, defined by unfolding over the lark tree); "
+    "Equation.__get_term_ranks returns the ranks of a term's accesses without duplicates in order of first appearance "
+    "(ghost witness lists give, for every returned rank, the access and position it was first seen at; no earlier "
+    "position carries it; witnesses strictly increase; every rank of every access is present); LoopOrder.add uses the "
     "given order if present and otherwise exactly partition_ranks(einsum_ranks, all parts); Mapping.__init__ maps "
     "every omitted / None section to an empty dictionary and passes present ones through; "
     "Partitioning.__update_ranks replaces a partitioned rank in place by its levels (reversed partition_names). "
-    "The composite statement (identical emitted text for omitted vs written default, first-appearance order across "
-    "tensors and terms) is served by a bounded family with an independently computed default.")
+    "The composite statement (identical emitted text for omitted vs written default) is served by a bounded family with an independently computed default.")
 TRUSTED = ["lark Tree observers (find_data/children/data) as assumed in contracts/equation.py",
            "partition_names ascending by level (assumed, monitored natively)"]
 _mods = None
